@@ -62,6 +62,7 @@ PROPS["C17"] = dict(
         dict(name="concurrent", run="^TestC17Concurrent$", shards=(2, 16), timeout=(200, 1500), race=True),
         dict(name="sparse", run="^TestC17Sparse$", checks=(150, 1200), shards=(2, 8), timeout=(200, 1500)),
         dict(name="huge", run="^TestC17Huge$", checks=(40, 300), shards=(2, 8), timeout=(200, 1500)),
+        dict(name="fault", run="^TestC17Fault$", checks=(1500, 12000), shards=(2, 8), timeout=(200, 1500)),
         dict(name="big", run="^TestC17Big$", checks=(1, 12), shards=(1, 4), timeout=(200, 1500), enabled=(False, True)),
     ],
 )
